@@ -238,14 +238,16 @@ Record refresh_case := mk_refresh_case {
 Definition refresh_trace (c : refresh_case) : list label :=
   LBegin 0 (rc_query c) :: LRefresh (rc_other c) :: repeat (LStep 0) (rc_steps c) ++ [LEnd 0].
 
+(** component codes continue those of Check06.check_case: 7 = the answer delivered by the model over the trace
+    differs from the gateway's, 8 = the model's request is not finished after the gateway's number of steps *)
 Definition check_refresh_case (c : refresh_case) : list nat :=
   match delivered 0 (gw_run (rc_world c) rpick false (refresh_trace c) (gw_init (rc_g c))) with
-  | None => [2]                                  (* the model's request is not finished after that many steps *)
+  | None => [8]                                  (* the model's request is not finished after that many steps *)
   | Some a =>
       match option_map norm a, rc_answer c with
-      | Some x, Some y => if json_eqb x y then [] else [1]
+      | Some x, Some y => if json_eqb x y then [] else [7]
       | None, None => []
-      | _, _ => [1]
+      | _, _ => [7]
       end
   end.
 
